@@ -102,6 +102,21 @@ Definition run_gip4 (fields : list str) : str :=
   | _ => lit "BADCASE"
   end.
 
+(* ["gas"; salt; numeral]: AsNumberAnonymizer._generate_as_number_replacement as GENERATED from the source (gen/G_fn_sir.v) *)
+Require G_fn_sir.
+Definition run_gas (fields : list str) : str :=
+  match fields with
+  | [_; salt; numeral] =>
+      match G_fn_sir.gen_AsNumberAnonymizer___generate_as_number_replacement (fun _ _ => Exc Unsupported) 1%nat
+              (VObj (of_string "AsNumberAnonymizer") [(S_ "salt", VStr (zs salt))]) (VStr (zs numeral)) with
+      | Normal (VTuple [VStr r; _]) => map Z.to_N r
+      | Normal (VTuple [VNone; _]) => lit "None"
+      | Exc (ValueError _) => lit "ValueError"
+      | _ => lit "ERR"
+      end
+  | _ => lit "BADCASE"
+  end.
+
 (* ["gjenc"; plain; salt] / ["gjdec"; crypt]: the $9$ codec as GENERATED from utils/juniper_secrets.py (gen/G_fn_jun.v) *)
 Require Import G_fn_jun.
 Definition no_call (f a : pyval) : PyLib.res := Exc TypeError.
